@@ -54,6 +54,7 @@ Proof. exact generated_c12_obligation. Qed.
 
 Theorem C12_generated_guard_before_writer :
   all_before "raise_if_charge_err" "print_pqr" stages = true
+  /\ all_before "raise_if_matched_atoms" "print_pqr" stages = true
   /\ all_before "apply_force_field" "print_pqr" stages = true
   /\ all_before "is_repairable" "print_pqr" stages = true
   /\ all_before "check_files" "print_pqr" stages = true
